@@ -1,11 +1,11 @@
 package c08
 
 import (
-	"time"
 	"bytes"
 	"encoding/binary"
 	"encoding/hex"
 	"net"
+	"time"
 
 	"github.com/miscreant/miscreant.go"
 	"github.com/scionproto/scion/pkg/addr"
@@ -437,9 +437,27 @@ func genCSPTPItem(t *rapid.T, target string) item {
 	return item{Target: target, Hex: hx(b), Note: "csptp"}
 }
 
+// a TLS 1.3 ClientHello record as Go's client sends it is ~250 bytes; a prefix of a well-formed record header makes
+// the peer wait for the rest
+var clientHelloPrefix = []byte{0x16, 0x03, 0x01, 0x00, 0xf8, 0x01, 0x00, 0x00, 0xf4, 0x03, 0x03}
+
 func genKEItem(t *rapid.T) item {
-	if rapid.IntRange(0, 5).Draw(t, "rawtcp") == 2 {
+	it := genKEItem0(t)
+	// a slow or silent peer: the connection stays open while the listener's liveness is checked
+	it.Hold = rapid.IntRange(0, 3).Draw(t, "hold") == 0
+	if it.Hold {
+		it.Note += " (held open)"
+	}
+	return it
+}
+
+func genKEItem0(t *rapid.T) item {
+	switch rapid.IntRange(0, 8).Draw(t, "rawtcp") {
+	case 2:
 		return item{Target: "ntske-raw", Hex: hx(rapid.SliceOfN(rapid.Byte(), 0, 300).Draw(t, "raw")), Note: "raw tcp"}
+	case 3: // nothing at all, or the beginning of a handshake
+		n := rapid.IntRange(0, len(clientHelloPrefix)).Draw(t, "hello-prefix")
+		return item{Target: "ntske-raw", Hex: hx(clientHelloPrefix[:n]), Note: "partial ClientHello"}
 	}
 	var recs []netlab.Rec
 	for i := rapid.IntRange(0, 6).Draw(t, "nrecs"); i > 0; i-- {
